@@ -499,6 +499,9 @@ func (x *World) inCallback(o int, e ecs.Entity, ptrs []unsafe.Pointer) *Violatio
 	}
 	if v := x.compareWorld(ref, skip, false); v != nil {
 		v.Kind = "callback-state"
+		if op.K == model.OpSetRelBatch && x.sourceTables(x.curRes.Touched) > 1 {
+			v.Kind = "callback-state/multi-table"
+		}
 		v.Msg = fmt.Sprintf("%v: in %s callback (must see the state %s the change): %s", *op, model.EvNames[spec.Event], when, v.Msg)
 		return v
 	}
@@ -546,4 +549,18 @@ func isBatch(k model.Kind) bool {
 		return true
 	}
 	return false
+}
+
+// sourceTables counts the distinct (component set, relation targets) groups of the given
+// entities in the pre-state, i.e. the number of source tables a batch touches.
+func (x *World) sourceTables(ents []int) int {
+	seen := map[string]bool{}
+	for _, i := range ents {
+		if x.preM == nil || i >= len(x.preM.Ents) {
+			continue
+		}
+		e := &x.preM.Ents[i]
+		seen[fmt.Sprint(e.Comps, e.Tgt)] = true
+	}
+	return len(seen)
 }
